@@ -102,6 +102,23 @@ void h_ternary(void) {
     __CPROVER_assert(rt == wt, "conditional operator: the result type is the common type of the usual arithmetic conversions");
     __CPROVER_assert((rs == Sign_UNSIGNED) == wu && rs != Sign_UNKNOWN_SIGN, "conditional operator: the result signedness follows the usual arithmetic conversions");
 }
+int g_in_szt;
+/* p - q: the result has type ptrdiff_t, the signed integer type as wide as size_t (and as a pointer) on the built-in platforms */
+void h_ptrdiff(void) {
+    struct Platform pl; pl.sizeof_short = 2; pl.sizeof_int = nondet_size_t(); pl.sizeof_long = nondet_size_t(); pl.sizeof_long_long = 8; pl.sizeof_size_t = nondet_size_t();
+    __CPROVER_assume((pl.sizeof_int == 2 || pl.sizeof_int == 4) && (pl.sizeof_long == 4 || pl.sizeof_long == 8) && pl.sizeof_long >= pl.sizeof_int);
+    __CPROVER_assume(pl.sizeof_size_t == pl.sizeof_int || pl.sizeof_size_t == pl.sizeof_long || pl.sizeof_size_t == pl.sizeof_long_long);
+    g_in_szi = (int)pl.sizeof_int; g_in_szl = (int)pl.sizeof_long; g_in_szll = 8; g_in_szt = (int)pl.sizeof_size_t;
+    enum VType rt = VType_UNKNOWN_TYPE; enum Sign rs = Sign_UNKNOWN_SIGN;
+    g_is_incdec = 0;
+    int sel = pointer_block(0, &pl, &rt, &rs);
+    __CPROVER_assert(sel == 2 && rs == Sign_SIGNED, "a pointer difference is a signed integer");
+    __CPROVER_assert((rt == VType_INT || rt == VType_LONG || rt == VType_LONGLONG) && (size_t)rank_size(rt, &pl) == pl.sizeof_size_t, "ptrdiff_t is as wide as size_t on the platform");
+    g_is_incdec = 1;
+    __CPROVER_assert(pointer_block(0, &pl, &rt, &rs) == 1, "p++ is a pointer");
+    g_is_incdec = 0;
+    __CPROVER_assert(pointer_block(1, &pl, &rt, &rs) == 1, "c ? p : q is a pointer");
+}
 void h_size(void) {
     struct Platform pl; pl.sizeof_int = nondet_size_t(); pl.sizeof_long = nondet_size_t(); pl.sizeof_long_long = nondet_size_t(); enum VType t = (enum VType)nondet_int();
     size_t r = getIntegerTypeSize(t, &pl);
@@ -181,6 +198,26 @@ def build(ctx):
     ], ID + ".ternary"); n += k
     if re.search(r'\bparent\b|\bvt[12]\b(?!_)', extract.mask(tt)):
         raise extract.ExtractError("K23: the selection block of the conditional operator was not fully lowered: %r" % re.findall(r'[^\n]*(?:\bparent\b|\bvt[12]\b(?!_))[^\n]*', extract.mask(tt))[:3])
+    # pointer operand: pointer result or pointer difference
+    hp = list(re.finditer(r'if \(vt1->pointer != 0U\)\s*\{', msv[cb:]))
+    if len(hp) < 1:
+        raise extract.ExtractError("setValueType: `if (vt1->pointer != 0U) {` after the conditional-operator block not found")
+    obp = cb + hp[0].end() - 1
+    cbp = extract.match_brace(fsv.text, obp, msv)
+    regp = extract.Located("lib/symboldatabase.cpp", fsv.text[obp + 1:cbp], fsv.start + obp + 1, fsv.start + cbp, extract.read("lib/symboldatabase.cpp"))
+    kb.add_located("SymbolDatabase::setValueType [pointer result / pointer difference]", regp, "region")
+    tp, k = located_rules(regp, _common.VT_RULES + [
+        (r'\bsetValueType\(parent,\s*\*vt1\)\s*;', 'sel = 1;', 1, 1),
+        (r'\bsetValueType\(parent,\s*ValueType\((\w+),\s*(\w+),\s*0U,\s*0U,\s*"ptrdiff_t"\)\)\s*;', r'{ *rs = \1; *rt = \2; sel = 2; }', 1, 1),
+        (r'\breturn\s*;', 'return sel;', 1, 1),
+        (r'\bparent->tokType\(\)\s*==\s*Token::eIncDecOp\b', 'g_is_incdec', 1, 1),
+        (r'\bmSettings\.platform\.(\w+)', r'platform->\1', 0),
+    ], ID + ".ptrdiff"); n += k
+    if re.search(r'\bparent\b|\bvt[12]\b|mSettings', extract.mask(tp)):
+        raise extract.ExtractError("K23: the pointer block was not fully lowered: %r" % re.findall(r'[^\n]*(?:\bparent\b|\bvt[12]\b|mSettings)[^\n]*', extract.mask(tp))[:3])
+    ptr_fn = ("/* the first operand is a pointer - 1: the result has its type, 2: pointer difference of type (*rt, *rs) */\n"
+              "int pointer_block(_Bool ternary, const struct Platform *platform, enum VType *rt, enum Sign *rs)\n{\n    int sel = 0;\n%s\n    return 0;\n}\n"
+              % extract.strip_comments(tp))
     ternary_fn = ("/* 0: the conversions below decide, 1 / 2: the result has the type of operand 1 / 2 */\n"
                   "int ternary_select(enum VType vt1_type, enum Sign vt1_sign, int vt1_pointer, _Bool has_vt2, enum VType vt2_type, enum Sign vt2_sign, int vt2_pointer, _Bool other_equal)\n{\n    int sel = 0;\n%s\n    return 0;\n}\n"
                   % extract.strip_comments(tt))
@@ -190,6 +227,7 @@ def build(ctx):
         raise extract.ExtractError("K23: a use of vt1/vt2 was not lowered: %r" % t.strip()[:300])
     out.append("_Bool g_is_incdec;   /* the operator is ++ or -- (parent->tokType() == Token::eIncDecOp) */\n_Bool g_is_c;        /* the file is C (parent->isC()) */\n")
     out.append(ternary_fn)
+    out.append(ptr_fn)
     out.append("void conv_block(enum VType vt1_type, enum Sign vt1_sign, _Bool has_vt2, enum VType vt2_type, enum Sign vt2_sign, _Bool ternary, const struct Platform *platform, enum VType *rt, enum Sign *rs)\n{\n%s\n    *rt = vt.type; *rs = vt.sign;\n}\n"
                % extract.strip_comments(t))
     kb.rules_fired = n
@@ -200,6 +238,7 @@ def build(ctx):
     kb.job("unary", "h_unary", note="loop-free: complete")
     kb.job("incdec", "h_incdec", note="loop-free: complete; the parent operator is ++ / --")
     kb.job("ternary", "h_ternary", note="loop-free regions (operand selection + conversions): complete in both operand types and signs, C and C++, long 4 or 8")
+    kb.job("ptrdiff", "h_ptrdiff", note="loop-free region: int 2/4, long 4/8, size_t as wide as one of int / long / long long")
     kb.job("getIntegerTypeSize", "h_size", note="loop-free: complete")
     kb.job("cover", "h_cover", kind="cover")
     kb.assumptions += ["region interface: (type, sign) of both operands, presence of the second operand, ternary flag, platform; originalTypeName bookkeeping is dropped",
